@@ -13,6 +13,27 @@ CLAIMED = {
          'counterexample), the closure/simple-path reference formulas; vertices = dict keys, adjacency via iteration/membership',
     technique='bounded symbolic execution (own path-forking engine over z3) of src/graph_utils.py with symbolic edge bits',
     design='4/C19'),
+ 'C16': dict(
+    text='Bounded verification: the real Context API is executed under a symbolic history of operations (kind of '
+         'operation, namespace, name, table, value kind are solver integers) next to a reference scoped map; after the '
+         'history every public query from every namespace is compared. Quick: all histories of <= 2 operations plus one '
+         'arbitrary operation from every 8-entry state; thorough: K <= 3 and 12-entry states. Within these bounds '
+         'exhaustive; the solver mostly enumerates here (few constraints between choices).',
+    note='trusted: reference map Ref (vlib/props/C16.py), engine; one declaration kind per name per namespace; '
+         'reverse lookup of overwritten / namespace-dropped entries unspecified',
+    technique='bounded symbolic execution of src/ir/context.py under a symbolic operation history vs reference map',
+    design='4/C16'),
+ 'C15': dict(
+    text='Bounded verification of the driver decision table: real check_oracle/check_oracle_mul run with per-program '
+         'flags and per-file compiler verdicts as lazily decided solver booleans; reported/message/saved/cleanup '
+         'obligations are formulas over all flags (unexamined ones stay universally quantified). Counter and loop '
+         'lemmas (update_stats, stop_condition, get_batches) hold for arbitrary mathematical integers (one inductive '
+         'step). Batches <= 2 programs quick, <= 3 thorough; real _run loop for iterations<=6/12 x batch<=3/5.',
+    note='trusted: stand-in compiler with arbitrary verdicts (real parser = C14), real shutil in a temp dir, z3; '
+         'process pools, --debug/--rerun/--keep-all outside the claim',
+    technique='bounded symbolic execution of hephaestus.py (check_oracle, update_stats, stop_condition, get_batches, '
+              '_run) with solver-boolean verdicts; integer lemmas in z3 LIA',
+    design='4/C15'),
 }
 
 NOT_YET = 'check not built yet in this round (planned per DESIGN.md build order); not claimed'
